@@ -10,18 +10,18 @@ def panosBlocks : List (Sess × Cls) := [
   (panosDoCmd .save (.lit "commit") ;;
    .ite .err "err != nil" (.ret .keep ["err"]) .skip ;;
    .ite (.flag .noChanges)
-     "strings.Contains(msg, \"There are no changes to commit\") || strings.Contains(msg, \"The result of this commit would be the same\")"
+     "strings.Contains($doCmd.1, \"There are no changes to commit\") || strings.Contains($doCmd.1, \"The result of this commit would be the same\")"
      (.ret .nil ["nil"]) .skip ;;
-   .ite (.not (.flag .msgEmpty)) "msg != \"\"" (.ret .err ["_"]) .skip, .A),
+   .ite (.not (.flag .msgEmpty)) "$doCmd.1 != \"\"" (.ret .err ["_"]) .skip, .A),
   (panosDoCmd .save (.lit "show jobs") ;;
    .ite .err "err != nil" (.ret .keep ["err"]) .skip ;;
    xmlUnmarshal ;;
    .ite .err "err != nil" (.ret .keep ["err"]) .skip ;;
-   .ite (.flag .pend) "s.Result == \"PEND\"" .cont
-     (.ite (.flag .jobOk) "s.Result == \"OK\"" (.ret .nil ["nil"]) (.ret .err ["_"])), .A),
+   .ite (.flag .pend) "¬$new.Result != \"PEND\"" .cont
+     (.ite (.flag .jobOk) "¬$new.Result != \"OK\"" (.ret .nil ["nil"]) (.ret .err ["_"])), .A),
   (panosGetAPIKeyBody, .A),
   (panosCheckHABody, .A),
-  (panosHttpPrefixGetLog .read (.lit "get config") ;;
+  (panosHttpPrefixGetLog .read (.lit "get config") panosConfigLits ;;
    .ite .err "err != nil" (.ret .keep ["nil", "err"]) .skip ;;
    .call "parseResponseConfig" ["_"] (
      panosParseResponse ;;
@@ -54,7 +54,7 @@ def nsxBlocks : List (Sess × Cls) := [
   (nsxReadBlock (.lit "groups"), .A),
   (.roundTrip .login (.lit "session create") false ;;
    .ite .err "err != nil" (.ret .keep ["err"]) .skip ;;
-   .ite .not200 "resp.StatusCode != http.StatusOK" (.ret .err ["_"]) .skip, .A) ]
+   .ite .not200 "$PostForm.1.StatusCode != http.StatusOK" (.ret .err ["_"]) .skip, .A) ]
 
 theorem nsxBlocks_sound : ∀ q o, (q, o) ∈ nsxBlocks →
     ∀ env s, J (badChecked .nsx) s → G (badChecked .nsx) o (exec q env s) := by
